@@ -393,7 +393,7 @@ PROPS["C01"] = {
     "stub_pkgs": DEFAULT_STUBS + [STATS],
     "harnesses": [
         {"pkg": "internal/verifpipe", "func": "VerifH_C01_one_seed", "replay_tries": 2, "opts": {"max_steps": 50000000, "unwind": 70000, "map_order_all": False},
-         "covers": ["finished", "asset-fetched", "asset-of-asset", "redirect-followed", "always-failing", "outlink-produced"]},
+         "covers": ["finished", "asset-fetched", "asset-of-asset", "redirect-followed", "always-failing", "outlink-produced", "asset-redirect-followed", "asset-redirects-out-of-scope"]},
     ],
 }
 
